@@ -74,11 +74,6 @@ def oracle_c01(ctx, mt, cu, q, ref, res, seq):
                 else:
                     mech = 'text-not-in-query'
         if mech:
-            if cu == 'zh-cn' and mt == 'DateTimeModel':
-                from rtmon.checkers import c01
-                if c01.ZH_ADD_MOD['changed']:
-                    where['shape'] = mech
-                    mech = 'zh-cn-add-mod-respan'
             ctx.fail(mech, where, key, case, 'entity.text == normalised query[start..end]', ents)
             break
     if cu == 'zh-cn' and mt == 'DateTimeModel':
@@ -220,6 +215,16 @@ def classify_c11(cu, q, e, v, prob):
 
 
 def classify_overlap(mt, cu, q, a, b, rel):
+    # known-finding classifier: French 'cent' is both the numeral 100 and a currency fraction; after a number it is reported a second
+    # time as a unit without amount, inside the compound amount that already covers it
+    if cu == 'fr-fr' and mt == 'CurrencyModel' and rel == 'contained' and str(b[3]).strip().lower() == 'cent':
+        return 'overlap:fr-bare-cent-inside-amount'
+    # known-finding classifier: one participant is a date-time entity that swallowed a filler separating two expressions
+    # (pt-br: PrepositionRegex matches the empty string, so ANY text between a date and a time is a connector; nl-nl: 'tot <time> . <n> op de <n>')
+    if mt == 'DateTimeModel' and cu in ('pt-br', 'nl-nl'):
+        fills = [f.strip() for f in CULT_FILLERS.get(cu, []) + FILLERS if f.strip()]
+        if any((' %s ' % f) in (' %s ' % str(x[3])) or (f in '.;|' and f in str(x[3])) for x in (a, b) for f in fills):
+            return 'overlap:date-time-entity-spans-a-filler'
     return 'overlap:' + rel
 
 
@@ -228,7 +233,7 @@ ORACLES = {'C01': oracle_c01, 'C11': oracle_c11, 'C12': oracle_c12}
 # C12 quantifies over Specs inputs and generated well-formed expressions, C11 over Specs inputs and the C06-C10
 # expressions; neither includes noise.  C01 names the noise pool explicitly.
 # wsentity inserts a blank INSIDE an entity expression (no longer a well-formed expression) -> noise-like: judged by C01 only
-REPORT_ONLY = {'C01': (), 'C11': ('noise', 'multi', 'wsentity', 'wsperturb', 'edge'), 'C12': ('noise', 'wsentity', 'wsperturb-cjk')}
+REPORT_ONLY = {'C01': (), 'C11': ('noise', 'multi', 'multicorpus', 'wsentity', 'wsperturb', 'edge'), 'C12': ('noise', 'wsentity', 'wsperturb-cjk')}
 TRACE = {}
 
 
@@ -256,6 +261,7 @@ def multi_pool(r):
             '%d km' % r.randrange(1, 500), '%d degrees celsius' % r.randrange(-20, 45), '%d years old' % r.randrange(1, 99),
             '%d.%d.%d.%d' % tuple(r.randrange(256) for _ in range(4)), 'user%d@example.com' % r.randrange(100), 'https://www.example.org/a%d' % r.randrange(100),
             '#tag%d' % r.randrange(100), '@name%d' % r.randrange(100), '(%d) %d-%04d' % (r.randrange(200, 999), r.randrange(200, 999), r.randrange(10000)),
+            'minus %s' % r.choice(['two', 'seven', 'thirty']), 'negative %d' % r.randrange(1, 90), 'minus %d' % r.randrange(1, 90),
             'yes', 'no', 'from %s to %s' % (d.isoformat(), (d + dt.timedelta(days=r.randrange(1, 60))).isoformat())]
     # date-time expressions carrying one or two modifiers (before/after/since/until x around/about): the merged
     # extractor and parser widen and restore the span for these
@@ -288,6 +294,17 @@ HOUR_TEMPLATES = {
 }
 
 
+# fillers without a temporal or numeric meaning of their own (a filler like 'Later' / 'depois' / '然后' would itself be part of an expression)
+CULT_FILLERS = {'*': [' ; ', ' . ', ' | '], 'en-us': [' ; ', ' . ', ' and also ', ' but not '], 'es-es': [' ; ', ' . ', ' y también ', ' pero no '],
+                'es-mx': [' ; ', ' . ', ' y también '], 'fr-fr': [' ; ', ' . ', ' et aussi ', ' mais pas '], 'pt-br': [' ; ', ' . ', ' e também ', ' mas não '],
+                'it-it': [' ; ', ' . ', ' e anche ', ' ma non '], 'de-de': [' ; ', ' . ', ' und auch ', ' aber nicht '], 'nl-nl': [' ; ', ' . ', ' en ook ', ' maar niet '],
+                'zh-cn': ['；', '。', '，还有', ' ; '], 'ja-jp': ['；', '。', '、そして', ' ; ']}
+UNITPAIR_CULTURES = ['en-us', 'es-es', 'fr-fr', 'pt-br', 'it-it', 'de-de', 'nl-nl']
+UNITPAIR_DIMS = {'en-us': ['km', 'meters', 'miles', 'kg', 'pounds', 'liters', 'feet', 'inches'], 'de-de': ['km', 'Meter', 'kg', 'Liter', 'Zentimeter'],
+                 'es-es': ['km', 'metros', 'kg', 'litros'], 'fr-fr': ['km', 'mètres', 'kg', 'litres'], 'it-it': ['km', 'metri', 'kg', 'litri'],
+                 'pt-br': ['km', 'metros', 'kg', 'litros'], 'nl-nl': ['km', 'meter', 'kg', 'liter']}
+
+
 def plan(pid, tier, seed):
     jobs = []
     for cu in CULTURES:
@@ -298,9 +315,14 @@ def plan(pid, tier, seed):
             jobs.append({'name': 'noise-%s-%d' % (cu, s), 'kind': 'noise', 'culture': cu, 'shard': s, 'weight': 3})
     for s in range(2 if tier == 'quick' else 6):
         jobs.append({'name': 'multi-%d' % s, 'kind': 'multi', 'shard': s, 'weight': 2})
+    for cu in CULTURES:
+        for s in range(1 if tier == 'quick' else 3):
+            jobs.append({'name': 'multicorpus-%s-%d' % (cu, s), 'kind': 'multicorpus', 'culture': cu, 'shard': s, 'weight': 2})
     if pid != 'C11':
         for s in range(2 if tier == 'quick' else 4):
             jobs.append({'name': 'edge-%d' % s, 'kind': 'edge', 'shard': s, 'weight': 2})
+        for cu in UNITPAIR_CULTURES:
+            jobs.append({'name': 'unitpairs-%s' % cu, 'kind': 'unitpairs', 'culture': cu, 'weight': 2})
         for cu in CULTURES:
             sh = 1 if tier == 'quick' else 3
             for s in range(sh):
@@ -398,6 +420,27 @@ def run(pid, job, ctx):
             k = r.randrange(2, 5)
             parts = [r.choice(pool) for _ in range(k)]
             q = r.choice(['', 'note: ', 'I said ']) + ''.join(p + (r.choice(FILLERS) if i < k - 1 else '') for i, p in enumerate(parts)) + r.choice(['', ' .', ' ok'])
+            R = dtlib.rand_ref(r)
+            for mt, m in models:
+                try:
+                    lib.call(m, mt, q, R)
+                except Exception:
+                    pass
+    elif kind == 'multicorpus':
+        # several-per-sentence in every culture: 2-4 of the entity expressions the culture's Specs expect, joined by neutral
+        # punctuation and filler words of the language
+        cu = job['culture']
+        models = [(mt, m) for rn, mt, c, m in lib.models_for(culture=cu) if pid != 'C11' or mt == 'DateTimeModel']
+        texts = [t for rec, t in lib.corpus_entity_texts(cu)]
+        if not models or len(texts) < 4:
+            return
+        r = ctx.rng('multicorpus:%s:%d' % (cu, job['shard']))
+        fill = CULT_FILLERS.get(cu, CULT_FILLERS['*'])
+        n = 160 if ctx.tier == 'quick' else 1600
+        for _ in range(n):
+            k = r.randrange(2, 5)
+            parts = [r.choice(texts) for _ in range(k)]
+            q = ''.join(p + (r.choice(fill) if i < k - 1 else '') for i, p in enumerate(parts))
             R = dtlib.rand_ref(r)
             for mt, m in models:
                 try:
@@ -517,6 +560,43 @@ def run(pid, job, ctx):
             mm = dtlib.dt_model(cu)
             for q in qs:
                 mm.parse(q, dtlib.rand_ref(r))
+    elif kind == 'unitpairs':
+        # two amounts side by side: main-currency amount + fraction-unit amount of the SAME and of OTHER currencies, two main currencies,
+        # two dimensions; joined by a blank, the culture's connector, a comma - every model of the culture sees each sentence
+        from rtmon.checkers import c05
+        cu = job['culture']
+        models = [(mt, m) for rn, mt, c, m in lib.models_for(culture=cu)]
+        cur = lib.model('NumberWithUnitRecognizer', 'CurrencyModel', cu)
+        cfg, pcfg = c05.tables(cur)
+        r = ctx.rng('unitpairs:' + cu)
+        iso_map = pcfg.currency_name_to_iso_code_map or {}
+        frac_code = pcfg.currency_fraction_code_list or {}
+        suffix = {}
+        for unit, f in c05.forms_of(cfg.suffix_list):
+            if f.replace(' ', '').isalpha():
+                suffix.setdefault(unit, []).append(f)
+        mains = sorted(u for u in iso_map if u in suffix and u not in frac_code)
+        fracs = sorted(u for u in frac_code if u in suffix)
+        n = 40 if ctx.tier == 'quick' else 400
+        mains = r.sample(mains, min(n, len(mains)))
+        joins = [' ', ' %s ' % c05.CONNECT[cu], ', ']
+        dims = UNITPAIR_DIMS.get(cu, [])
+        for mu in mains:
+            mf = r.choice(suffix[mu])
+            others = r.sample(fracs, min(6 if ctx.tier == 'quick' else 20, len(fracs)))
+            m2 = r.choice(mains)
+            for j in joins:
+                qs = ['%d %s%s%d %s' % (r.randrange(1, 900), mf, j, r.randrange(1, 99), r.choice(suffix[fu])) for fu in others]
+                qs.append('%d %s%s%d %s' % (r.randrange(1, 900), mf, j, r.randrange(1, 900), r.choice(suffix[m2])))
+                if dims:
+                    a, b = r.sample(dims, 2)
+                    qs.append('%d %s%s%d %s' % (r.randrange(1, 900), a, j, r.randrange(1, 900), b))
+                for q in qs:
+                    for mt, m in models:
+                        try:
+                            lib.call(m, mt, q, dt.datetime(2016, 11, 7, 10, 30))
+                        except Exception:
+                            pass
     elif kind == 'hourgrid':
         # ranges of two clock hours, every (begin, end) pair 0..24 incl. end < begin, with and without am/pm markers and minutes,
         # alone and attached to a date expression: the hour arithmetic (am/pm reading, +12, wrap over midnight) runs on every pair
